@@ -233,6 +233,9 @@ pub struct App {
     pub hold_stop: Cell<bool>,
     /// fail the control service on the first back-pressure notification
     pub fail_on_backpressure: Cell<bool>,
+    /// the control service stays inside every "write back-pressure enabled" notification until gate (G_BP, 0) opens
+    pub hold_backpressure: Cell<bool>,
+    pub bp_seq: Cell<u32>,
     /// called synchronously when a publish handler is entered (before its first await)
     pub on_pub_enter: RefCell<Option<Rc<dyn Fn(u32)>>>,
     pub pub_seq: Cell<u32>,
@@ -251,6 +254,8 @@ pub const G_CTL: u8 = 1;
 pub const G_STOP: u8 = 2;
 /// the handshake service (server roles)
 pub const G_HS: u8 = 3;
+/// the control service handling a "write back-pressure enabled" notification (only when `hold_backpressure` is set)
+pub const G_BP: u8 = 4;
 
 impl App {
     pub fn new() -> Rc<App> {
@@ -264,6 +269,8 @@ impl App {
             stop_answer: Cell::new(StopAnswer::None),
             hold_stop: Cell::new(false),
             fail_on_backpressure: Cell::new(false),
+            hold_backpressure: Cell::new(false),
+            bp_seq: Cell::new(0),
             on_pub_enter: RefCell::new(None),
             pub_seq: Cell::new(0),
             ctl_seq: Cell::new(0),
@@ -337,6 +344,20 @@ impl App {
                 }
             }
         })
+    }
+    /// a held "write back-pressure enabled" notification: each waits on a gate of its own
+    pub fn wait_backpressure(self: &Rc<Self>) -> impl Future<Output = ()> + 'static {
+        let n = self.bp_seq.get();
+        self.bp_seq.set(n + 1);
+        self.hold(G_BP, n);
+        self.wait(G_BP, n)
+    }
+    /// let every held back-pressure notification return, hold none from now on
+    pub fn release_backpressure(&self) {
+        self.hold_backpressure.set(false);
+        for n in 0..self.bp_seq.get() {
+            self.open(G_BP, n);
+        }
     }
     pub fn entered(&self, seq: u32) {
         let cb = self.on_pub_enter.borrow().clone();
